@@ -129,6 +129,8 @@ def getmove_scripts():
     yield "N=3; stores answered Success, Warning 0xB000, Failure 0xA700", 3, [P("1"), P("2"), P("3")], [0, 0xB000, 0xA700], ""
     yield "N=2; store raises then succeeds", 2, [P("1"), P("2")], [RuntimeError("x"), 0], ""
     yield "N=2; all fail", 2, [P("1"), P("2")], [0xA700, 0xC000], ""
+    yield ("N=3; two stores fail, one of the failed instances has a UID with a leading-zero component (sent as it is in the default "
+           "configuration)"), 3, [P("1.2.3.1"), P("1.2.3.02"), P("1.2.3.3")], [0, 0xA700, 0xC000], "listed-as-failed"
     yield "N=3; fewer results than announced", 3, [P("1")], [0], ""
     yield "N=1; more results than announced", 1, [P("1"), P("2"), P("3")], [0, 0, 0], ""
     yield "N=2; handler yields Success early after a failure", 2, [P("1"), (0x0000, None)], [0xA700], ""
@@ -170,6 +172,24 @@ def store_stub(outcomes):
     return send_c_store
 
 
+def failed_list_verdict(sent, results, outcomes):
+    """the final response lists exactly the instances whose sub-operation failed (when every result is a (Pending, data set
+    with a SOP Instance UID) pair and there is one scripted outcome per result)"""
+    if not sent or len(results) != len(outcomes) or not all(isinstance(r, tuple) and r[0] == 0xFF00 and hasattr(r[1], "SOPInstanceUID") for r in results):
+        return None
+    want = [str(r[1].SOPInstanceUID) for r, o in zip(results, outcomes) if isinstance(o, Exception) or (o not in (0x0000,) and not (0xB000 <= o <= 0xBFFF))]
+    last = sent[-1]
+    got = []
+    if last.data:
+        from pynetdicom.dsutils import decode
+        ds = decode(BytesIO(last.data), True, True)
+        v = ds.get("FailedSOPInstanceUIDList", [])
+        got = [str(v)] if isinstance(v, str) else [str(x) for x in v]
+    if sorted(got) != sorted(want):
+        return f"final response lists {got} as failed, the sub-operations that failed were for {want}"
+    return None
+
+
 def c22_verdict(sent, n):
     if not isinstance(n, int) or not 1 <= n <= 65535:
         return None
@@ -205,6 +225,7 @@ def getmove_scenarios():
                     sa = types.SimpleNamespace(is_established=True, send_c_store=store_stub(outcomes), release=lambda: None)
                     a.ae.associate = lambda *x, **k: sa
             yield dict(desc=f"C-{which.upper()}; handler: {desc}", tag=tag, kind=which, n=n, cls=SCm.QueryRetrieveServiceClass,
+                       results=results, outcomes=outcomes,
                        req=lambda which=which: getmove_req(which), cx=context(sop), handlers={ev: (getmove_handler(which, n, results), None)},
                        repo=False, setup=setup,
                        applies=lambda ob, tag=tag, which=which: (f"_{which}_scp" in ob) and (tag in ob if tag else True))
@@ -223,6 +244,8 @@ def run_scenario(sc, prop="C20"):                      # noqa: F811
     sent, err, a = run_scp(sc["cls"], req, sc["cx"], sc["handlers"], setup=sc.get("setup"), method=sc.get("method", "SCP"))
     if prop == "C22":
         what = c22_verdict(sent, sc.get("n")) if err is None else None
+        if what is None and err is None and "results" in sc:
+            what = failed_list_verdict(sent, sc["results"], sc["outcomes"])
         exp = "Pending: remaining+completed+failed+warning == N, monotone; final: completed+failed+warning <= N"
     else:
         what = c20_verdict(sent, err, a, req.MessageID, sc["cx"].context_id, repo_query=sc["repo"])
